@@ -738,8 +738,12 @@ def _f_outfiles():
                 continue
             raise TranslationError(f'_out_files: unexpected test `{test}`')
         if isinstance(st, ast.Try):
-            if not (len(st.body) == 1 and U(st.body[0]) == 'yield (out_im, param_im)') or st.handlers or not st.finalbody:
+            if not (len(st.body) == 1 and U(st.body[0]) == 'yield (out_im, param_im)') or not st.finalbody:
                 raise TranslationError('_out_files: the `try: yield ... finally:` block')
+            # the one handler allowed: after a failed block no overviews are built (finding D42) - and the exception is re-raised
+            hs = [(U(h.type) if h.type else None, [U(x) for x in h.body]) for h in st.handlers]
+            if hs not in ([], [('BaseException', ['build_ovw = False', 'raise'])]):
+                raise TranslationError(f'_out_files: exception handlers {hs} (a failure must be re-raised)')
             fin = [U(x) for x in st.finalbody]
             want = ['self._set_corr_metadata(out_im, **kwargs)', 'if build_ovw:\n    self._build_overviews(out_im)', 'out_im.close()',
                     'if param_im:\n    self._set_param_metadata(param_im, **kwargs)\n    if build_ovw:\n        self._build_overviews(param_im)\n    param_im.close()']
